@@ -353,6 +353,12 @@ def _work(job):
         return kind, case, {"machinery": str(e)}
     except Exception as e:  # noqa: BLE001
         import traceback
+        from .core import raised_by_implementation
+        site = raised_by_implementation(e)
+        if site is not None:
+            # the library raised on a configuration the specification counts as legal: a verdict, not a breakdown of the harness
+            return kind, case, {"evals": 1, "nontriv": [], "skip": {}, "cid": "", "viol": [(f"IrfIndex[{kind}]: the model raises {type(e).__name__} in {site}",
+                                f"evaluating a legal configuration raised {type(e).__name__}: {str(e)[:200]} (in {site})")]}
         return kind, case, {"machinery": f"{type(e).__name__}: {e}\n{traceback.format_exc()[-1500:]}"}
 
 
